@@ -42,6 +42,9 @@ pub enum Op {
     BoxedGenerate,
     BoxArrRepeat,
     BoxArrList,
+    /// zero-sized `()` elements only: a Vec / Box<[()]> whose length agrees with N in its low bits (N + 2^16, 2^31, 2^32, 3*2^32,
+    /// 2^48) or exceeds isize::MAX, offered to (form) 0 TryFrom<Vec>, 1 TryFrom<Box<[T]>>, 2 try_from_vec, 3 try_from_boxed_slice
+    HugeUnit(u8, u8),
     /// child process: constructor `which` of an array of 2^22 or 2^24 bytes on a 256 KiB stack
     Big(u8, bool),
 }
@@ -119,6 +122,24 @@ fn run<T: Elem + Clone + Default, N: ArrayLength>(case: &Case) -> Result<(), Str
                     }
                     elems_dropped_once::<T>("TryFrom<Vec>", &want)?;
                 }
+            }
+        }
+        Op::HugeUnit(form, sel) => {
+            if std::mem::size_of::<T>() != 0 || std::mem::needs_drop::<T>() {
+                return Ok(());
+            }
+            let l = [n + (1 << 16), n + (1 << 31), n + (1 << 32), n + (3 << 32), n + (1 << 48), usize::MAX, isize::MAX as usize + 1 + n][sel as usize % 7];
+            // a vector of zero-sized elements owns no memory whatever its length (its capacity is usize::MAX)
+            let mut v: Vec<T> = Vec::new();
+            unsafe { v.set_len(l) };
+            let (name, ok) = match form {
+                0 => ("TryFrom<Vec>", GenericArray::<T, N>::try_from(v).is_ok()),
+                1 => ("TryFrom<Box<[T]>>", GenericArray::<T, N>::try_from(v.into_boxed_slice()).is_ok()),
+                2 => ("try_from_vec", GenericArray::<T, N>::try_from_vec(v).is_ok()),
+                _ => ("try_from_boxed_slice", GenericArray::<T, N>::try_from_boxed_slice(v.into_boxed_slice()).is_ok()),
+            };
+            if ok {
+                return Err(format!("{name}: accepted {l} zero-sized elements for N = {n}"));
             }
         }
         Op::SliceToArr(l) => {
@@ -516,6 +537,13 @@ pub fn main() {
                     ops.push(Op::VecToBox(l, spare));
                 }
             }
+            if kind == Kind::Unit {
+                for form in 0..4u8 {
+                    for sel in 0..7u8 {
+                        ops.push(Op::HugeUnit(form, sel));
+                    }
+                }
+            }
             if n == 65536 {
                 ops.retain(|o| !matches!(o, Op::ArrToVec | Op::ArrToSlice | Op::VecToArr(..) | Op::SliceToArr(_)) || kind == Kind::Unit || kind == Kind::U8);
             }
@@ -563,7 +591,7 @@ pub fn main() {
         Report {
             prop: PROP,
             level: "exploration",
-            rule: "case = (N in {0,1,2,3,4,5,7,8,12,16,33,64,256,1024,65536}, element kind u8/u64/()/drop-tracked, conversion, source length in {0, N-1, N, N+1}, spare capacity 0/1/7, seeded values). Conversions: TryFrom<Vec>, TryFrom<Box<[T]>>, From<GenericArray> for Vec / Box<[T]>, into_boxed_slice, into_vec, try_from_boxed_slice, try_from_vec, Box<GenericArray>::into_iter, try_boxed_from_iter / boxed collect, default_boxed, boxed generate, box_arr! (repeat and list). \
+            rule: "case = (N in {0,1,2,3,4,5,7,8,12,16,33,64,256,1024,65536}, element kind u8/u64/()/drop-tracked, conversion, source length in {0, N-1, N, N+1} (for () also N + 2^16, 2^31, 2^32, 3*2^32, 2^48, usize::MAX and isize::MAX + 1 + N through the four fallible conversions), spare capacity 0/1/7, seeded values). Conversions: TryFrom<Vec>, TryFrom<Box<[T]>>, From<GenericArray> for Vec / Box<[T]>, into_boxed_slice, into_vec, try_from_boxed_slice, try_from_vec, Box<GenericArray>::into_iter, try_boxed_from_iter / boxed collect, default_boxed, boxed generate, box_arr! (repeat and list). \
                    Oracle: contents equal the source Vec in order (values and identities); Ok iff source length = N; on LengthError every element of the rejected source has been dropped; for the conversions documented O(1) the data pointer is unchanged and the recording allocator saw no dealloc/realloc of that block and no new block of its size; the five boxed constructors build 4 MiB and 16 MiB arrays of bytes, and 31- and 32-element arrays of 16 KiB elements, on a thread with a 256 KiB stack inside a child process (a stack round trip kills the child). \
                    non-trivial = wrong source length, or a block-identity check on a non-empty non-zero-sized array, or a multi-MiB construction; distinct = distinct case tuples",
             exhaustive: false,
